@@ -1,6 +1,9 @@
 package remoting
 
 import (
+	"encoding/binary"
+	"fmt"
+	"io"
 	"net"
 	"time"
 
@@ -27,12 +30,22 @@ func (h *Handshake) Send(conn net.Conn) error {
 }
 
 func (h *Handshake) Wait(conn net.Conn) error {
-	var buf = make([]byte, 4096)
 	if err := conn.SetReadDeadline(time.Now().Add(time.Second * 10)); err != nil {
 		return err
 	}
 
-	if _, err := conn.Read(buf); err != nil {
+	// 握手报文为 4 字节长度前缀加地址字符串。TCP 可能将其拆成多段到达：
+	// 必须读满整个报文，否则尚未到达的字节会被随后的帧解析当作第一帧的开头，整条连接就此错位
+	buf := make([]byte, 4, 4096)
+	if _, err := io.ReadFull(conn, buf); err != nil {
+		return err
+	}
+	length := binary.BigEndian.Uint32(buf)
+	if int(length) > cap(buf)-len(buf) {
+		return fmt.Errorf("handshake too long: %d bytes", length)
+	}
+	buf = buf[:4+int(length)]
+	if _, err := io.ReadFull(conn, buf[4:]); err != nil {
 		return err
 	}
 	reader := messages.NewReaderFromPool(buf)
